@@ -75,6 +75,32 @@ def run_checks(seed_dir, checks, tier):
     return res
 
 
+def run_checks_in_worktree(seed_dir, checks, tier):
+    """Development aid: same as run_checks but on a scratch worktree (VERIF_REPO), leaving /repo untouched so that
+    several seeds can be tried while other runs use /repo.  Kept seeds are always confirmed with run_checks on /repo."""
+    patch = os.path.join(seed_dir, 'patch.diff')
+    wt = '/tmp/seed_wt_%d' % os.getpid()
+    sh(['git', '-C', REPO, 'worktree', 'add', '-q', '--detach', wt, 'HEAD'])
+    res = {}
+    try:
+        r = sh(['git', '-C', wt, 'apply', patch])
+        if r.returncode != 0:
+            raise SystemExit('patch does not apply: ' + r.stderr)
+        env = dict(os.environ, VERIF_REPO=wt, VERIF_EVIDENCE_DIR='/tmp/seed_wt_evidence_%d' % os.getpid())
+        for c in checks:
+            t0 = time.time()
+            p = sh([os.path.join(VERIF, 'check'), c, '--tier', tier], cwd=VERIF, env=env)
+            viol = [l for l in p.stdout.split('\n') if l.startswith('VIOLATION')]
+            keys = [l.strip() for l in p.stdout.split('\n') if l.strip().startswith('key=')]
+            res[c] = {'exit': p.returncode, 'violations': len(viol), 'first': keys[0][:300] if keys else '',
+                      'wall_s': round(time.time() - t0, 1)}
+    finally:
+        sh(['git', '-C', REPO, 'worktree', 'remove', '--force', wt])
+        shutil.rmtree(wt, ignore_errors=True)
+        shutil.rmtree('/tmp/seed_wt_evidence_%d' % os.getpid(), ignore_errors=True)
+    return res
+
+
 def main():
     ap = argparse.ArgumentParser()
     ap.add_argument('seed_dir')
@@ -82,6 +108,7 @@ def main():
     ap.add_argument('--all', action='store_true')
     ap.add_argument('--tier', default='quick')
     ap.add_argument('--no-confirm', action='store_true')
+    ap.add_argument('--worktree', action='store_true', help='run the checks on a scratch worktree instead of /repo')
     a = ap.parse_args()
     meta_p = os.path.join(a.seed_dir, 'meta.json')
     meta = json.load(open(meta_p)) if os.path.exists(meta_p) else {}
@@ -89,7 +116,7 @@ def main():
     if not a.no_confirm:
         out['confirm'] = confirm(a.seed_dir)
     checks = ALL if a.all else (a.checks.split(',') if a.checks else [meta.get('property')])
-    out['checks'] = run_checks(a.seed_dir, checks, a.tier)
+    out['checks'] = (run_checks_in_worktree if a.worktree else run_checks)(a.seed_dir, checks, a.tier)
     out['caught_by'] = [c for c, r in out['checks'].items() if r['exit'] == 1 and r['violations']]
     print(json.dumps(out, indent=1))
 
